@@ -84,7 +84,9 @@ LengthTwo(G, share) ==
 
 -----------------------------------------------------------------------------
 Upper(a) == CASE a = "a" -> "A" [] a = "b" -> "B" [] a = "c" -> "C" [] a = "d" -> "D" [] a = "e" -> "E"
-              [] a = "x" -> "X" [] a = "y" -> "Y" [] a = "z" -> "Z" [] OTHER -> a
+              [] a = "x" -> "X" [] a = "y" -> "Y" [] a = "z" -> "Z"
+              [] a = "~03b5~" -> "~0395~"        \* the glyph epsilon as an ordinary terminal: str.upper() gives the capital
+              [] OTHER -> a
 
 RECURSIVE ReplSyms(_, _, _, _, _)
 (* replace the terminals of one right-hand side from left to right: <<new rhs, V, repl (sequence of <<terminal, variable>>)>> *)
